@@ -1259,3 +1259,39 @@ def element_region(prog, b, marker_rx):
                 rej.append(F.edge_cond(b, e))
         return b, emits, rej, (lambda e: mentions_next(e) is not None)
     return None
+
+
+def wal_roles(prog, file='src/persistent_state.rs', entry_adt='persistent_state::WalEntry'):
+    """(mac routine id, verify routine id) of the write-ahead log, found by what they do rather than by their names:
+    the MAC routine takes a WalEntry and feeds a keyed MAC (Mac::update .. finalize); the verify routine returns bool, calls
+    the MAC routine and compares its output with the entry's stored tag. Raises AnchorMissing when either is not found."""
+    key = ('wal_roles', file)
+    memo = getattr(prog, '_memo', None)
+    if memo is None:
+        memo = prog._memo = {}
+    if key in memo:
+        return memo[key]
+    mac = ver = None
+    short = entry_adt.rsplit('::', 1)[-1]
+    cands = []
+    for b in prog.bodies.in_files([file]):
+        if b.parent or b.derived:
+            continue
+        if not any(short in b.local_ty(i) for i in range(1, b.argc + 1)):
+            continue
+        ups = b.calls(r'Mac>::update$|Mac::update$|Update>::update$')
+        fin = b.calls(r'Mac>::finalize$|Mac::finalize$|::finalize$|::finalize_fixed$')
+        if ups and fin:
+            cands.append(b)
+    if cands:
+        mac = max(cands, key=lambda b: len(b.calls(r'Mac>::update$|Mac::update$|Update>::update$'))).id
+    if mac is not None:
+        for b in prog.bodies.in_files([file]):
+            if b.parent or b.derived or b.local_ty(0) != 'bool':
+                continue
+            if any(c.callee == mac for c in b.calls()) and any('.hmac' in b.expr(a).show() for c in b.calls() for a in c.args):
+                ver = b.id
+    if mac is None or ver is None:
+        raise F.AnchorMissing('WAL MAC routine / verify routine (a fn over WalEntry feeding Mac::update, and a bool fn comparing its output with entry.hmac)')
+    memo[key] = (mac, ver)
+    return mac, ver
